@@ -197,6 +197,7 @@ type server struct {
 	udp     [2]*net.UDPConn
 	mu      sync.Mutex
 	nreq    int // non-TEARDOWN requests seen
+	nstale  int // stale=true challenges sent
 	records []reqRecord
 	callReq int  // requests since the current API call started
 	storm   bool // more than stormLimit requests inside one API call: stop mutating, answer 404
@@ -699,7 +700,15 @@ func (s *server) respond(req *base.Request, act Act) outcome {
 		case act.A == 401:
 			switch act.B {
 			case 0:
-				rr.add("WWW-Authenticate", `Digest realm="r", nonce="abcdef"`)
+				if s.cs.Stale != 0 {
+					s.mu.Lock()
+					s.nstale++
+					k := s.nstale
+					s.mu.Unlock()
+					rr.add("WWW-Authenticate", fmt.Sprintf(`Digest realm="r", nonce="n%06d", stale=%s, algorithm=MD5`, k, []string{"true", "TRUE", "\"true\""}[k%3]))
+				} else {
+					rr.add("WWW-Authenticate", `Digest realm="r", nonce="abcdef"`)
+				}
 				ab.Auth = 1
 			case 1:
 				rr.add("WWW-Authenticate", `Basic realm="r"`)
